@@ -194,6 +194,7 @@ def enc_run(case):
     for m, init in case['models']:
         cl = leaf_closure(nd_, init)
         out += [m, cl[-1] if cl else init]
+    out.append(0)          # runner keys: the code files timers under id(model) - the identity, whatever __eq__ says
     out.append(len(case['history']))
     for op in case['history']:
         if op[0] == 'tick':
@@ -319,10 +320,20 @@ def _model_class(case, run, is_async):
     send_event = case['send_event']
     async_cbs = is_async and case['async_cbs']
 
+    model_eq = case.get('model_eq', 'identity')
+    pks = case.get('pks') or [m for m, _i in case['models']]
+
     class Model(object):
         def __init__(self, idx):
             self.idx = idx
+            self.pk = pks[idx]
             self.raised = None
+
+    if model_eq != 'identity':
+        # value objects: two handles on the same record compare equal - but they are two models
+        Model.__eq__ = lambda self, other: isinstance(other, Model) and other.pk == self.pk
+        Model.__ne__ = lambda self, other: not (isinstance(other, Model) and other.pk == self.pk)
+        Model.__hash__ = None if model_eq == 'unhashable' else (lambda self: hash(('model', self.pk)))
 
     def mk_pre(sid):
         if async_cbs:
@@ -447,11 +458,26 @@ def _machine(case, run):
     if case['on_exc']:
         kw['on_exception'] = ['rec_exception']
     first = case['models'][0][1]
+    if case.get('layout', 'shared') == 'per_model':
+        # one machine per model; the State objects are created once and handed to every machine
+        # (the "state definitions on the class, one machine per instance" layout): they share `runner`
+        machine = TimeoutMachine(model=models[0], states=_state_defs(case, case['states'], is_async),
+                                 transitions=transitions, initial=name_of(pt[first]), auto_transitions=False,
+                                 ignore_invalid_triggers=True, queued=case['queued'], send_event=case['send_event'], **kw)
+        shared = list(machine.states.values())
+        run.machines = [machine]
+        for mo, (_m, init) in list(zip(models, case['models']))[1:]:
+            run.machines.append(TimeoutMachine(model=mo, states=shared, transitions=transitions,
+                                               initial=name_of(pt[init]), auto_transitions=False,
+                                               ignore_invalid_triggers=True, queued=case['queued'],
+                                               send_event=case['send_event'], **kw))
+        return machine, models
     machine = TimeoutMachine(model=None, states=_state_defs(case, case['states'], is_async), transitions=transitions,
                              initial=name_of(pt[first]), auto_transitions=False, ignore_invalid_triggers=True,
                              queued=case['queued'], send_event=case['send_event'], **kw)
     for mo, (_m, init) in zip(models, case['models']):
         machine.add_model(mo, initial=name_of(pt[init]))
+    run.machines = [machine]
     return machine, models
 
 
@@ -798,7 +824,16 @@ def gen_case(rng, cls):
         'on_exc': rng.random() < 0.6,
         'async_cbs': rng.random() < 0.5,
         'batch': rng.random() < 0.6,        # asyncio: events of one instant are awaited back to back in one task
+        # one machine with all models / one machine per model sharing the State objects
+        'layout': 'shared',
+        # model objects: plain (identity equality) / value equality with __hash__ / value equality, unhashable
+        'model_eq': rng.choice(['identity', 'identity', 'value', 'value', 'unhashable']),
+        'pks': [rng.randrange(2) for _ in range(n_models)],
         'transitions': transitions, 'models': models, 'history': []})
+    if n_models > 1 and rng.random() < (0.3 if case['model_eq'] == 'identity' else 0.7):
+        case['layout'] = 'per_model'
+    if case['layout'] == 'shared' or case['model_eq'] == 'identity':
+        case['pks'] = list(range(n_models))     # one machine refuses a second model that equals a registered one
     try:
         resolve_table(case)
     except Cycle:
@@ -882,6 +917,8 @@ def chunk(seed, idx, n, classes):
         st = ex.stats
         for key, val in (('class', case['cls']), ('queued', str(case['queued'])), ('models', str(len(case['models']))),
                          ('fired_per_case', str(min(8, sum(1 for r in recs if r[0] == FIRED)))),
+                         ('layout', case.get('layout', 'shared')), ('model_eq', case.get('model_eq', 'identity')),
+                         ('equal_models', str(len(set(case.get('pks') or [0])) < len(case['models']))),
                          ('nested_timeouts', str(any(n['timeout'] and n['children'] for n in nodes(case).values())))):
             d = st.setdefault(key, {})
             d[val] = d.get(val, 0) + 1
@@ -907,6 +944,8 @@ def shrink_steps(case):
         last = case['models'][-1][0]
         c = copy.deepcopy(case)
         c['models'].pop()
+        if c.get('pks'):
+            c['pks'] = c['pks'][:len(c['models'])]
         c['history'] = [op for op in ([o[0], [p for p in o[1] if p[0] != last]] if o[0] == 'tick' else o
                                       for o in c['history']) if op[0] == 'tick' or op[1] != last]
         yield c
@@ -925,6 +964,14 @@ def shrink_steps(case):
             c['transitions'] = [t for t in c['transitions'] if t['src'] not in gone and t['dst'] not in gone]
             if c['transitions']:
                 yield c
+    if case.get('model_eq', 'identity') != 'identity':
+        c = copy.deepcopy(case)
+        c['model_eq'] = 'identity'
+        yield c
+    if case.get('layout') == 'per_model' and len(set(case.get('pks') or [])) == len(case['models']):
+        c = copy.deepcopy(case)
+        c['layout'] = 'shared'
+        yield c
     for key, val in (('queued', False), ('send_event', False), ('on_exc', False), ('async_cbs', False), ('batch', False)):
         if case.get(key, val) != val:
             c = copy.deepcopy(case)
@@ -956,6 +1003,17 @@ def fails_like(kind, what):
     return f
 
 
+def load_corpus():
+    """minimised regression cases (corpus/C17/*.json), run first on every run"""
+    import glob
+    import os
+    out = []
+    for path in sorted(glob.glob(os.path.join(common.CORPUS, 'C17', '*.json'))):
+        with open(path) as fh:
+            out.append(json.load(fh)['case'])
+    return out
+
+
 class C17(runner.Check):
     prop = 'C17'
     level = 'proof'
@@ -984,14 +1042,16 @@ class C17(runner.Check):
                 'TM.C17_once', 'TM.C17_never_after_exit', 'TM.C17_restart_on_reenter', 'TM.C17_models_independent',
                 'TM.C17_typed_reachable', 'TM.C17_internal_keeps_timer', 'TM.C17_reject_missing_handler',
                 'TM.C17_async_started_handler_survives', 'TM.C17_async_error_routed',
-                'TM.C17_unbracketed_counterexample')
+                'TM.C17_unbracketed_counterexample', 'TM.C17_coarse_key_counterexample')
     rule = ('random machines with Timeout (Machine, HierarchicalMachine, LockedMachine) or AsyncTimeout (AsyncMachine, '
             'HierarchicalAsyncMachine): 2-4 states (nested up to depth 3, compound states with timeouts of their own), '
             'timeouts 0-5, 1-2 on_timeout callbacks that may trigger an event or raise (an Exception, another BaseException, '
             'or asyncio.CancelledError - under asyncio by awaiting a cancelled future), states with no on_enter/on_exit '
             'callback at all / plain ones / on_enter callbacks that trigger an event re-entrantly (unqueued and queued) '
             '/ on_enter and on_exit callbacks that raise (with and without on_exception), 2-3 events incl. reflexive '
-            'and internal transitions, 1-3 models, queued or not, send_event on/off; under asyncio the events of one '
+            'and internal transitions, 1-3 models - plain objects, value objects (__eq__/__hash__ on a key, equal and '
+            'unequal pairs) or unhashable ones, on one machine or one machine per model sharing the State objects - '
+            'queued or not, send_event on/off; under asyncio the events of one '
             'instant are awaited back to back in one task (no idle loop in between) or one by one; histories of 3-9 (delay, event) '
             'pairs with delays below / equal to / above the timeouts, for the threaded classes also events that win '
             'the tie against a timer due at the same instant; a case is non-trivial when at least one timeout fired '
@@ -1003,8 +1063,8 @@ class C17(runner.Check):
                'non-parallel nested; re-entrant on_enter triggers, raising callbacks)',
                'the probe state mixin (records enter/exit, delegates to the timeout feature)')
 
-    quick = (48, 250)
-    thorough = (128, 900)
+    quick = (32, 220)
+    thorough = (128, 600)
 
     def explore(self, tier, seed):
         nch, per = self.quick if tier == 'quick' else self.thorough
@@ -1015,6 +1075,11 @@ class C17(runner.Check):
         ex = Exploration()
         for part in runner.parallel(chunk, payloads):
             ex.merge(part)
+        corpus = load_corpus()
+        for case, run, fails, flags in evaluate(corpus) if corpus else []:
+            ex.evaluations += 1
+            ex.failures += fails
+        ex.stats['corpus_cases'] = len(corpus)
         n, fails = check_ctor()
         ex.evaluations += n
         ex.stats['constructor_cases'] = n
